@@ -253,6 +253,21 @@ func evalC15(c c15Case, o *Obs) error {
 					o.Class("C15:newext-with-a-crafted-scalar")
 				}
 			}
+			if op.I&4 != 0 {
+				// an imported key whose parent fingerprint is 00000000 below the root (a legal value, and what some
+				// wallets export) ...
+				cp2 := *src
+				cp2.ParentFP = [4]byte{}
+				src = &cp2
+				o.Class("C15:newext-zero-fingerprint-below-root")
+			}
+			if op.I&8 != 0 && src.Depth > 0 {
+				// ... or one that says depth 0 and still carries a child number and a parent fingerprint
+				cp2 := *src
+				cp2.Depth = 0
+				src = &cp2
+				o.Class("C15:newext-depth-0-with-child-number")
+			}
 			var keyData []byte
 			if src.Priv != nil {
 				keyData = pad32(src.Priv)
@@ -473,6 +488,14 @@ func evalC15(c c15Case, o *Obs) error {
 		}
 	}
 	for i, e := range pool {
+		if e.zeroed {
+			// erased is erased for good: nothing (no helper the library may have started) writes key material back later
+			for _, name := range c15Fields {
+				if b, err := privateBuf(e.k, name); err == nil && !allZero(b) {
+					return fmt.Errorf("key #%d (%s): at the end of the history the field %s of this erased key holds %x", i, e.origin, name, b)
+				}
+			}
+		}
 		if !e.zeroed {
 			if err := c15Observe(e, i, true, "at the end of the history"); err != nil {
 				return err
@@ -502,6 +525,9 @@ func genC15(t *rapid.T) c15Case {
 			op.Op = "fromstring"
 		case 3:
 			op.Op, op.I, op.Net = "newext", uint32(rapid.IntRange(0, 3).Draw(t, "newextflags")), genNet(t)
+			if rapid.IntRange(0, 3).Draw(t, "imported") == 0 {
+				op.I |= uint32(rapid.SampledFrom([]int{4, 8, 12}).Draw(t, "importedshape"))
+			}
 			if rapid.IntRange(0, 2).Draw(t, "crafted") == 0 {
 				op.Seed = genScalar(t, "craftedk")
 			}
